@@ -32,6 +32,7 @@ class LuaTemplates:
         self.body = fn_body(self.fn)
         self.inits = binding_inits(self.body)
         self.arms = {}      # variant -> dict(events=[..], fields=[ty..], arm=arm)
+        self.guarded = {}   # variant -> [dict(events, fields, arm, guard)]: arms with an `if` guard, tried before the general one
         self.prologue = []  # events before the instruction loop
         self.loop_tail = []  # events after the match inside the loop
         self.loop_head = []  # events before the match inside the loop (indentation)
@@ -80,7 +81,17 @@ class LuaTemplates:
                         for b in pat_bindings(sub):
                             refs[b["hid"]] = i
                 ev = self.events(arm["body"], refs, {})
-                self.arms[name] = dict(events=ev, arm=arm, fields=[f["ty"] for f in self.variants[name]["fields"]])
+                entry = dict(events=ev, arm=arm, fields=[f["ty"] for f in self.variants[name]["fields"]], refs=refs)
+                if arm.get("guard") is not None:
+                    entry["guard"] = arm["guard"]
+                    self.guarded.setdefault(name, []).append(entry)
+                elif name in self.arms:
+                    self.problems.append("two unguarded arms for IR::%s in the emitter's dispatch" % name)
+                else:
+                    self.arms[name] = entry
+        for name in self.guarded:
+            if name not in self.arms:
+                self.problems.append("IR::%s has only guarded arms in the emitter's dispatch" % name)
         # statements after the dispatch in the loop body (newline)
         lb = peel(loop["body"])
         after = False
@@ -420,7 +431,7 @@ def holes(parts):
                 yield from holes(p[2])
 
 
-def summary(T, name):
+def summary(T, name, entry=None):
     """facts about one IR variant's emission:
        dest        position defined (None if the op defines nothing)
        inlinable   routed through define() when used once
@@ -431,7 +442,7 @@ def summary(T, name):
        raws        positions written verbatim (strings)
        text        rendered template for the 'many' case; value = the defining expression text
     """
-    a = T.arms[name]
+    a = entry or T.arms[name]
     ev = a["events"]
     s = dict(dest=None, inlinable=False, droppable=False, guard=None, reads=set(), names=set(), raws=set(), nums=set(),
              text_many="", text_one="", value=None, dyn=False, lvalue_expand=set())
